@@ -38,9 +38,9 @@ from harness.lib.metareader import TableReader, entry_tuple
 
 LEVEL = "proof"
 THEOREMS = [
-    "C15_wf_invariant", "C15_last_seq_mono", "C15_no_abort", "C15_repoint_nearest", "C15_repoint_cycle",
-    "C15_current_kept", "C15_delete_exact", "C15_entries_provenance", "C15_mlog_ok",
-    "C09_by_timestamp", "C09_delete_current",
+    "C15_wf_invariant", "C15_seq_in_log_order", "C15_last_seq_mono", "C15_no_abort", "C15_repoint_nearest",
+    "C15_nearest_is_ancestor", "C15_repoint_cycle", "C15_current_kept", "C15_delete_exact", "C15_entries_provenance",
+    "C15_mlog_ok",
 ]
 REQ = ["DS.Model.MetaBase", "DS.Gen.GenRepoint", "DS.Model.Meta"]
 
@@ -68,6 +68,16 @@ RET_VALUES = [None, "1", "2", "5", "x", "0", 2]
 MAX_VALUES = [None, "1", "2", "0", "x", 3]
 NONEXISTENT_SNAP = 777000777
 NONEXISTENT_FILE = 999
+
+
+def coq_eval_batched(exprs: List[str], preamble: str = "", chunk: int = 100) -> List[Any]:
+    """coqbuild.coq_eval in batches of at most JOBS chunk files: with more files than job slots its reaper only
+    polls (never drains the pipes), so a chunk printing more than a pipe buffer would block forever."""
+    out: List[Any] = []
+    per = chunk * max(1, min(coqbuild.JOBS, 16))
+    for i in range(0, len(exprs), per):
+        out.extend(coqbuild.coq_eval(REQ, exprs[i:i + per], preamble=preamble, chunk=chunk))
+    return out
 
 
 def pval(v: Any) -> Any:
@@ -650,7 +660,7 @@ def model_states(cases: List[Dict[str, Any]]) -> List[Any]:
     for r in cases:
         ops = "[" + "; ".join(r["model_ops"]) + "]"
         exprs.append(f"map show (trace (init ({r['hist']['t0']}) 0) {ops})")
-    return coqbuild.coq_eval(REQ, exprs, preamble=SHOW, chunk=8)
+    return coq_eval_batched(exprs, preamble=SHOW, chunk=8)
 
 
 def compare_history(r: Dict[str, Any], model: Any) -> Optional[Dict[str, Any]]:
@@ -690,21 +700,77 @@ def run_histories(ctx, hists: List[Dict[str, Any]], label: str) -> List[Dict[str
 
 
 # ---------------------------------------------------------------------------------- shrinking
-def shrink(ctx, hist: Dict[str, Any], still_fails, budget: int = 40) -> Dict[str, Any]:
-    """One-op-out delta debugging; references in ops are resolved at run time, so every sub-history is valid."""
+def shrink(ctx, hist: Dict[str, Any], still_fails, budget: int = 90) -> Dict[str, Any]:
+    """Delta debugging: drop whole operations, then sub-operations of transactions, then single paths / files of
+    a sub-operation. References inside operations are resolved at run time, so every candidate is a valid history."""
     cur = hist
-    progress = True
     n = 0
+
+    def attempt(cand: Dict[str, Any]) -> bool:
+        nonlocal n, cur
+        if n >= budget or not cand["ops"]:
+            return False
+        n += 1
+        if still_fails(cand):
+            cur = cand
+            return True
+        return False
+
+    progress = True
     while progress and n < budget:
         progress = False
         for i in range(len(cur["ops"]) - 1, -1, -1):
-            if n >= budget:
-                break
-            cand = dict(cur, ops=cur["ops"][:i] + cur["ops"][i + 1:])
-            n += 1
-            if cand["ops"] and still_fails(cand):
-                cur = cand
+            if i < len(cur["ops"]) and attempt(dict(cur, ops=cur["ops"][:i] + cur["ops"][i + 1:])):
                 progress = True
+        for i in range(len(cur["ops"])):
+            op = cur["ops"][i]
+            if op["k"] != "txn":
+                continue
+            for j in range(len(op["ops"]) - 1, -1, -1):
+                if len(cur["ops"][i]["ops"]) <= 1:
+                    break
+                op = cur["ops"][i]
+                if j < len(op["ops"]):
+                    op2 = dict(op, ops=op["ops"][:j] + op["ops"][j + 1:])
+                    if attempt(dict(cur, ops=cur["ops"][:i] + [op2] + cur["ops"][i + 1:])):
+                        progress = True
+            op = cur["ops"][i]
+            for j, sub in enumerate(op["ops"]):
+                if sub[0] in ("append", "delete") and isinstance(sub[1], list) and len(sub[1]) > 1:
+                    for k in range(len(sub[1]) - 1, -1, -1):
+                        sub_now = cur["ops"][i]["ops"][j]
+                        if len(sub_now[1]) <= 1 or k >= len(sub_now[1]):
+                            continue
+                        sub2 = [sub_now[0], sub_now[1][:k] + sub_now[1][k + 1:]]
+                        opn = cur["ops"][i]
+                        op2 = dict(opn, ops=opn["ops"][:j] + [sub2] + opn["ops"][j + 1:])
+                        if attempt(dict(cur, ops=cur["ops"][:i] + [op2] + cur["ops"][i + 1:])):
+                            progress = True
+        # lower references (they are taken modulo the number of known files / snapshots at run time)
+        for i in range(len(cur["ops"])):
+            op = cur["ops"][i]
+            if op["k"] == "delsnap" and op["ref"] > 3:
+                for r in (0, 1, 2, 3):
+                    if attempt(dict(cur, ops=cur["ops"][:i] + [dict(op, ref=r)] + cur["ops"][i + 1:])):
+                        progress = True
+                        break
+            if op["k"] != "txn":
+                continue
+            for j, sub in enumerate(op["ops"]):
+                if sub[0] != "delete":
+                    continue
+                for k in range(len(sub[1])):
+                    if cur["ops"][i]["ops"][j][1][k][0] <= 3:
+                        continue
+                    for r in (1, 2, 3):
+                        opn = cur["ops"][i]
+                        subn = opn["ops"][j]
+                        els = [list(e) for e in subn[1]]
+                        els[k][0] = r
+                        op2 = dict(opn, ops=opn["ops"][:j] + [[subn[0], els]] + opn["ops"][j + 1:])
+                        if attempt(dict(cur, ops=cur["ops"][:i] + [op2] + cur["ops"][i + 1:])):
+                            progress = True
+                            break
     return cur
 
 
@@ -761,7 +827,7 @@ def forest_families(ctx) -> List[List[Tuple[int, Any]]]:
                 continue  # already in (a)
             fams.append([(i + 1, p) for i, p in enumerate(ps)])
     # (c) duplicated snapshot ids (corrupt metadata): the dict comprehension keeps the LAST binding
-    for n in (2, 3, 4):
+    for n in ((2, 3, 4) if ctx.tier == "thorough" else (2, 3)):
         for idsq in itertools.product([1, 2, 3], repeat=n):
             if len(set(idsq)) == n:
                 continue
@@ -788,7 +854,7 @@ def corr_forests(ctx) -> None:
            "(* subsets in the order of the bit mask: element k is kept iff bit k of the index is set *)\n"
            "Fixpoint subsets {A} (l : list A) : list (list A) := match l with [] => [[]] | x :: r => "
            "flat_map (fun s => [s; x :: s]) (subsets r) end.\n")
-    got = coqbuild.coq_eval(REQ, exprs, preamble=pre, chunk=250)
+    got = coq_eval_batched(exprs, preamble=pre, chunk=250)
     bad = []
     for fam, row, g in zip(fams, impl, got):
         n = len(fam)
@@ -924,7 +990,7 @@ def check_histories(ctx) -> None:
         answers.append([a for _k, _e, a in items])
         owners.append((r, items))
     try:
-        got = coqbuild.coq_eval(REQ, exprs, preamble=SHOW, chunk=8)
+        got = coq_eval_batched(exprs, preamble=SHOW, chunk=8)
     except RuntimeError as e:
         ctx.proof_problems.append("model evaluation (lookups) failed: " + str(e)[:800])
         return
@@ -940,7 +1006,15 @@ def check_histories(ctx) -> None:
 
 
 # minimised histories of past failures; always run first
-CORPUS: List[Dict[str, Any]] = []
+CORPUS: List[Dict[str, Any]] = [
+    # C15 delete-missed (fixed): a file registered as "data/x" was not removed by delete_files(["/data/x"])
+    {"ops": [{"k": "txn", "ops": [["append", [0]]], "t": 1000, "tu": 1000},
+             {"k": "txn", "ops": [["delete", [[1, 1]]]], "t": 1000, "tu": 1000}], "uuid_seed": 1, "t0": 1000},
+    # both spellings on both sides, plus a doubled slash, in one transaction
+    {"ops": [{"k": "txn", "ops": [["append", [0, 1, 0, 1]]], "t": 1000, "tu": 1000},
+             {"k": "txn", "ops": [["delete", [[1, 1], [2, 0], [3, 2]]], ["append", ["auto"]]], "t": 999, "tu": 1000},
+             {"k": "txn", "ops": [["delete", [[4, 0], [5, 1]]]], "t": 999, "tu": 998}], "uuid_seed": 2, "t0": 1000},
+]
 
 
 def run(ctx) -> None:
@@ -961,16 +1035,24 @@ def run(ctx) -> None:
     ctx.proofs(THEOREMS, gen_files=["GenRepoint.v"])
     ctx.allow_axioms([])
     # implementation-only oracles + correspondence share the history runs
+    import time
+    t0 = time.time()
+    ctx.stats["t_proofs_s"] = round(t0 - ctx.t0, 1)
     try:
         oracle_forests(ctx)
     except Exception as e:  # pragma: no cover
         import traceback
         ctx.proof_problems.append("forest oracle crashed: " + traceback.format_exc()[-800:])
+    t1 = time.time()
+    ctx.stats["t_forest_oracle_s"] = round(t1 - t0, 1)
     check_histories(ctx)
+    t2 = time.time()
+    ctx.stats["t_histories_s"] = round(t2 - t1, 1)
     try:
         corr_forests(ctx)
     except RuntimeError as e:
         ctx.proof_problems.append("model evaluation failed: " + str(e)[:600])
+    ctx.stats["t_forest_corr_s"] = round(time.time() - t2, 1)
 
 
 def replay(ctx, payload) -> int:
